@@ -8,6 +8,7 @@ nested (strict XML for DFXP, tag-stack checks for SAMI and WebVTT); reader resul
 """
 import itertools
 
+from mc import shared
 from mc.acc import Acc
 from mc.ref import parsers
 
@@ -246,21 +247,21 @@ def run_route(route, shape, spans, lay=None):
     for hop in hops:
         try:
             if hop == "dfxp":
-                doc = pycaption.DFXPWriter().write(cs)
+                doc = shared.obj(pycaption.DFXPWriter).write(cs)
                 try:
                     parsers.parse_ttml(doc)
                 except parsers.ParseError as e:
                     return [("dfxp-markup-unbalanced", {"err": str(e)[:200], "doc": doc[-700:]})], "unbalanced"
-                cs = pycaption.DFXPReader().read(doc)
+                cs = shared.obj(pycaption.DFXPReader).read(doc)
                 carried &= {"italics"}
             elif hop == "sami":
-                doc = pycaption.SAMIWriter().write(cs)
+                doc = shared.obj(pycaption.SAMIWriter).write(cs)
                 s = parsers.parse_sami(doc)
                 if s["markup_errors"]:
                     return [("sami-markup-unbalanced", {"err": s["markup_errors"][:3], "doc": doc[-700:]})], "unbalanced"
-                cs = pycaption.SAMIReader().read(doc)
+                cs = shared.obj(pycaption.SAMIReader).read(doc)
             else:
-                doc = pycaption.WebVTTWriter().write(cs)
+                doc = shared.obj(pycaption.WebVTTWriter).write(cs)
                 got, errors = vtt_flags(doc)
                 if errors:
                     return [("vtt-tags-unbalanced", {"err": errors[:3], "doc": doc})], "unbalanced"
@@ -323,6 +324,24 @@ def span_sets(shape, tier):
                         yield [(a, b, s1), (c, d, s2)]
 
 
+def reuse_items():
+    items = []
+    i = 0
+    for shape in shapes()[::3]:
+        for spans in list(span_sets(shape, "quick"))[::41]:
+            for route in ROUTES:
+                lay = [None, "same", "diff"][i % 3] if len(spans) == 2 and spans[0][0] < spans[0][1] and spans[1][0] < spans[1][1] else None
+                items.append((route, shape, spans, lay))
+                i += 1
+    return items
+
+
+def reuse_eval(item):
+    route, shape, spans, lay = item
+    v, out = run_route(route, shape, spans, lay)
+    return [(f"C11/{route}/{kind}/{placement_class(shape, spans)}" + (f"/layouts-{lay}" if lay else ""), det) for kind, det in v], out
+
+
 SCC_LAYOUTS = [[1, 8, 15], [2, 9], [1, 5, 9, 13], [14, 15], [3, 4, 12], [15]]
 
 
@@ -348,7 +367,7 @@ def scc_programs():
 
 
 def shards(tier, seed):
-    sh = [{"route": "scc", "shape": -1, "tier": tier, "part": 0, "nparts": 1}]
+    sh = [{"route": "scc", "shape": -1, "tier": tier, "part": 0, "nparts": 1}, {"route": "reuse", "shape": -1, "tier": tier, "part": 0, "nparts": 1}]
     for si, shape in enumerate(shapes()):
         for route in ROUTES:
             parts = 1 if len(atoms(shape)) <= 4 else (2 if tier == "quick" else 6)
@@ -359,6 +378,9 @@ def shards(tier, seed):
 
 def run_shard(d):
     acc = Acc()
+    if d["route"] == "reuse":
+        shared.run(acc, reuse_items(), reuse_eval, sample=lambda it: {"reuse_run_step": list(it)})
+        return acc.result()
     if d["route"] == "scc":
         from mc.checks import c05
 
@@ -389,6 +411,8 @@ def run_shard(d):
 
 
 def replay(case):
+    if case.get("reuse"):
+        return shared.replay(reuse_items(), reuse_eval, case["index"])
     if case.get("route") == "scc":
         from mc.checks import c05
 
